@@ -3,7 +3,7 @@
 JSON scanner, and the property-level classification of a message that the direct oracles use.
 
 Nothing in the ORACLE part (classify_message / expected_* / wellformed) looks at the Coq model or its output."""
-import json, re, sys
+import json, os, re, sys
 import vlib
 from gen import jsongen as G
 
@@ -407,10 +407,15 @@ def replies_of(transport, o):
     return list(o["frames"])
 
 
+def impl_bin():
+    """VERIF_SRVMSG_BIN overrides the implementation binary (a harness copy built against another tree)."""
+    return os.environ.get("VERIF_SRVMSG_BIN") or vlib.rust_bin("srvmsg")
+
+
 def run_engine(ctx, cases):
     """cases: [(transport, cfg, msg)] -> [(impl_line, model_line)] (WS cases that disagree or look odd are re-run
     alone with a long quiet period before they are believed)"""
-    impl, model = vlib.rust_bin("srvmsg"), vlib.model_bin("server")
+    impl, model = impl_bin(), vlib.model_bin("server")
     lines = ["%s %s %s" % (t, c, m.hex() or "-") for t, c, m in cases]
     http = [i for i, (t, _, _) in enumerate(cases) if t.startswith("http")]
     ws = [i for i, (t, _, _) in enumerate(cases) if not t.startswith("http")]
